@@ -49,31 +49,6 @@ def legs? (s : String) : Option (List (List PS)) :=
   if s == "-" then some [] else
   (s.splitOn "/").mapM (fun leg => (leg.splitOn ".").mapM ps?)
 
-/-- C02 shape: the anticommutation graph of the vertices is exactly the star of
-these paths on the centre `legs[0][0]`, vertices distinct, centre leg of length
-one, at most one leg longer than two, legs ordered by non-decreasing length. -/
-def shapeCheck (legs : List (List PS)) : Except Err String := do
-  match legs with
-  | [] => return "empty"
-  | cleg :: rest =>
-    if cleg.length != 1 then return "centre leg is not a single vertex"
-    let vs := legs.flatten
-    if (Graph.dedupPS vs).length != vs.length then return "vertices not distinct"
-    if rest.any (fun l => l.isEmpty) then return "empty leg"
-    if (rest.filter (fun l => l.length > 2)).length > 1 then return "more than one long leg"
-    let lens := rest.map List.length
-    if !(lens.zip (lens.drop 1)).all (fun (a, b) => a ≤ b) then return "legs not sorted by length"
-    let c := cleg[0]!
-    -- expected edges: centre–first of each leg, consecutive vertices in a leg
-    let expected : List (PS × PS) :=
-      rest.flatMap (fun leg => (match leg with | [] => [] | a :: _ => [(c, a)]) ++ leg.zip (leg.drop 1))
-    let isExp := fun (a b : PS) => expected.any (fun (x, y) => (x.beq a && y.beq b) || (x.beq b && y.beq a))
-    for (a, b) in Graph.combinations2 vs do
-      let anti := !(← a.commutesWith b)
-      if anti != isExp a b then
-        return s!"edge mismatch at {showPS a},{showPS b}: anticommute={anti} star-edge={isExp a b}"
-    return "ok"
-
 def handle (line : String) : Option String :=
   match line.splitOn " " with
   | ["classify", gs] => do
@@ -104,7 +79,7 @@ def handle (line : String) : Option String :=
     return s!"size={(a.map Summand.dim).foldl (· + ·) 0} {showInv (invOfName a)}"
   | ["shape", legs] => do
     let l ← legs? legs
-    return showExcept id (shapeCheck l)
+    return showExcept (fun r => match r with | none => "ok" | some why => why) (shapeCheck l)
   | ["isin", gs, qs] => do
     let gs ← psList? gs
     let qs ← psList? qs
